@@ -78,3 +78,58 @@ package bmc
 //@ props C05 C09 C10
 //@ requires [sess.valid] !isnil(s) && !isnil(s.v2ConnectionShared) && !isnil(s.buffer) && !isnil(s.transport) && !isnil(c) && !isnil(s.decode) && !isnil(ctx) && !isnil(s.confidentialityLayer) && !isnil(s.backoff)
 //@ requires [C09.bound] s.AuthenticatedSequenceNumbers.Inbound < 0xfffffffe // fewer than 2^32-2 datagrams per session (stated limitation)
+
+// ---- sensor_reader.go (IPMI v2.0 35.14, 36.3)
+
+//@ func NewSensorReader
+//@ props C15
+//@ requires [reader.rec] !isnil(r)
+//@ ensures [C15.reader-refuse] (result1 != nil) == (r.Linearisation >= 12 || r.AnalogDataFormat > 2)
+//@ ensures [C15.reader-ok] result1 == nil ==> !isnil(result0)
+
+//@ func newLinearSensorReader
+//@ props C15
+//@ assigns nothing
+//@ requires [reader.rec] !isnil(r)
+//@ ensures [C15.newlinear-refuse] (result1 != nil) == (r.AnalogDataFormat > 2)
+//@ ensures [C15.newlinear-fields] result1 == nil ==> !isnil(result0) && result0.factors == r.ConversionFactors && result0.readingCmd.Req.Number == r.Number && result0.readingCmd.OwnerLUN == r.OwnerLUN
+//@ ensures [C15.newlinear-unsigned] result1 == nil && r.AnalogDataFormat == 0 ==> holdsFunc(result0.parser, "github.com/gebn/bmc/pkg/ipmi.parseAnalogDataFormatUnsigned")
+//@ ensures [C15.newlinear-ones] result1 == nil && r.AnalogDataFormat == 1 ==> holdsFunc(result0.parser, "github.com/gebn/bmc/pkg/ipmi.parseAnalogDataFormatOnesComplement")
+//@ ensures [C15.newlinear-twos] result1 == nil && r.AnalogDataFormat == 2 ==> holdsFunc(result0.parser, "github.com/gebn/bmc/pkg/ipmi.parseAnalogDataFormatTwosComplement")
+
+//@ func newLinearisedSensorReader
+//@ props C15
+//@ assigns nothing
+//@ requires [reader.rec] !isnil(r)
+//@ ensures [C15.newlinearised-refuse] (result1 != nil) == (r.AnalogDataFormat > 2 || r.Linearisation == 0 || r.Linearisation >= 12)
+//@ ensures [C15.newlinearised-inner] result1 == nil ==> !isnil(result0) && !isnil(result0.linearReader) && result0.linearReader.factors == r.ConversionFactors && result0.linearReader.readingCmd.Req.Number == r.Number && result0.linearReader.readingCmd.OwnerLUN == r.OwnerLUN
+//@ ensures [C15.newlinearised-unsigned] result1 == nil && r.AnalogDataFormat == 0 ==> holdsFunc(result0.linearReader.parser, "github.com/gebn/bmc/pkg/ipmi.parseAnalogDataFormatUnsigned")
+//@ ensures [C15.newlinearised-ones] result1 == nil && r.AnalogDataFormat == 1 ==> holdsFunc(result0.linearReader.parser, "github.com/gebn/bmc/pkg/ipmi.parseAnalogDataFormatOnesComplement")
+//@ ensures [C15.newlinearised-twos] result1 == nil && r.AnalogDataFormat == 2 ==> holdsFunc(result0.linearReader.parser, "github.com/gebn/bmc/pkg/ipmi.parseAnalogDataFormatTwosComplement")
+//@ ensures [C15.newlinearised-ln] result1 == nil && r.Linearisation == 1 ==> holdsFunc(result0.lineariser, "math.Log")
+//@ ensures [C15.newlinearised-log10] result1 == nil && r.Linearisation == 2 ==> holdsFunc(result0.lineariser, "math.Log10")
+//@ ensures [C15.newlinearised-log2] result1 == nil && r.Linearisation == 3 ==> holdsFunc(result0.lineariser, "math.Log2")
+//@ ensures [C15.newlinearised-exp] result1 == nil && r.Linearisation == 4 ==> holdsFunc(result0.lineariser, "math.Exp")
+//@ ensures [C15.newlinearised-exp10] result1 == nil && r.Linearisation == 5 ==> holdsFunc(result0.lineariser, "github.com/gebn/bmc/pkg/ipmi.init@linearisation.go#1")
+//@ ensures [C15.newlinearised-exp2] result1 == nil && r.Linearisation == 6 ==> holdsFunc(result0.lineariser, "math.Exp2")
+//@ ensures [C15.newlinearised-inverse] result1 == nil && r.Linearisation == 7 ==> holdsFunc(result0.lineariser, "github.com/gebn/bmc/pkg/ipmi.init@linearisation.go#2")
+//@ ensures [C15.newlinearised-sqr] result1 == nil && r.Linearisation == 8 ==> holdsFunc(result0.lineariser, "github.com/gebn/bmc/pkg/ipmi.init@linearisation.go#3")
+//@ ensures [C15.newlinearised-cube] result1 == nil && r.Linearisation == 9 ==> holdsFunc(result0.lineariser, "github.com/gebn/bmc/pkg/ipmi.init@linearisation.go#4")
+//@ ensures [C15.newlinearised-sqrt] result1 == nil && r.Linearisation == 10 ==> holdsFunc(result0.lineariser, "math.Sqrt")
+//@ ensures [C15.newlinearised-cubert] result1 == nil && r.Linearisation == 11 ==> holdsFunc(result0.lineariser, "github.com/gebn/bmc/pkg/ipmi.init@linearisation.go#5")
+
+//@ func (*linearSensorReader).Read
+//@ props C15
+//@ requires [reader.valid] !isnil(r) && !isnil(s) && (holdsFunc(r.parser, "github.com/gebn/bmc/pkg/ipmi.parseAnalogDataFormatUnsigned") || holdsFunc(r.parser, "github.com/gebn/bmc/pkg/ipmi.parseAnalogDataFormatOnesComplement") || holdsFunc(r.parser, "github.com/gebn/bmc/pkg/ipmi.parseAnalogDataFormatTwosComplement"))
+//@ ensures [C15.read-flags] result1 == nil ==> !r.readingCmd.Rsp.ReadingUnavailable && r.readingCmd.Rsp.ScanningEnabled
+//@ at ConvertReading assert [C15.read-raw] arg[int16](1) == r.parser.Parse(r.readingCmd.Rsp.Reading) && arg[*ipmi.ConversionFactors](0) == &r.factors
+//@ ensures [C15.read-value] result1 == nil ==> result0 == r.factors.ConvertReading(r.parser.Parse(r.readingCmd.Rsp.Reading))
+//@ ensures [C15.read-unavailable] r.readingCmd.Rsp.ReadingUnavailable ==> result1 != nil
+//@ ensures [C15.read-disabled] !r.readingCmd.Rsp.ScanningEnabled ==> result1 != nil
+//@ ensures [C15.read-zero] result1 != nil ==> result0 == 0
+
+//@ func (*linearisedSensorReader).Read
+//@ props C15
+//@ requires [reader.valid] !isnil(r) && !isnil(s) && !isnil(r.linearReader) && !isnil(r.lineariser) && (holdsFunc(r.lineariser, "math.Log") || holdsFunc(r.lineariser, "math.Log10") || holdsFunc(r.lineariser, "math.Log2") || holdsFunc(r.lineariser, "math.Exp") || holdsFunc(r.lineariser, "math.Exp2") || holdsFunc(r.lineariser, "math.Sqrt") || holdsFunc(r.lineariser, "github.com/gebn/bmc/pkg/ipmi.init@linearisation.go#1") || holdsFunc(r.lineariser, "github.com/gebn/bmc/pkg/ipmi.init@linearisation.go#2") || holdsFunc(r.lineariser, "github.com/gebn/bmc/pkg/ipmi.init@linearisation.go#3") || holdsFunc(r.lineariser, "github.com/gebn/bmc/pkg/ipmi.init@linearisation.go#4") || holdsFunc(r.lineariser, "github.com/gebn/bmc/pkg/ipmi.init@linearisation.go#5")) && (holdsFunc(r.linearReader.parser, "github.com/gebn/bmc/pkg/ipmi.parseAnalogDataFormatUnsigned") || holdsFunc(r.linearReader.parser, "github.com/gebn/bmc/pkg/ipmi.parseAnalogDataFormatOnesComplement") || holdsFunc(r.linearReader.parser, "github.com/gebn/bmc/pkg/ipmi.parseAnalogDataFormatTwosComplement"))
+//@ ensures [C15.lread-flags] result1 == nil ==> !r.linearReader.readingCmd.Rsp.ReadingUnavailable && r.linearReader.readingCmd.Rsp.ScanningEnabled
+//@ ensures [C15.lread-value] result1 == nil ==> result0 == r.lineariser.Linearise(r.linearReader.factors.ConvertReading(r.linearReader.parser.Parse(r.linearReader.readingCmd.Rsp.Reading)))
